@@ -21,7 +21,7 @@ def main(tier, seed):
     # (i) syntax-error ranges: a token's range or the empty range at the end of the text; token ends are char boundaries
     synrun.token_suite(chk, oracle, sp, jobs, props, B['tokens'], B['ctx'])
     synrun.token_suite(chk, oracle, sp, jobs, props, B['raw'], 0, lo='WHITESPACE', hi='ERROR', raw=True)
-    synrun.lexer_suite(chk, oracle, sp, jobs, props + ['C01/C20'], B['lex'], B['pipeline'])
+    synrun.lexer_suite(chk, oracle, sp, jobs, props + ['C01/C20', 'C01: token'], B['lex'], B['pipeline'])
     oracle.close()
     syn.W.cleanup()
     # (ii) outgoing range conversion (convert::to_range over the line map) — shares the C14 kernel
@@ -30,6 +30,9 @@ def main(tier, seed):
         vfsrun.c20_part(chk, tier, jobs)
     except ImportError:
         chk.assumptions.append('part (ii) (convert::to_range) is decided by the C14 check')
+    # (iii) the diagnostics query hands the parser's error ranges through unchanged
+    from . import diagk
+    diagk.part(chk, tier, jobs)
     chk.assumptions += synrun.SYN_ASSUMPTIONS + [
         'kernel claim: only ranges produced by the parser (syntax errors) and the offset->position conversion of outgoing ranges are decided; '
         'ranges computed by ide queries (navigation targets, references, rename edits, completion source ranges, highlights) need the salsa database and rowan cursors and are outside the claim']
